@@ -15,9 +15,10 @@ from concurrent.futures import ThreadPoolExecutor
 from . import build
 
 ROOT = build.ROOT
-EVIDENCE = os.path.join(ROOT, "evidence")
-REPLAYS = os.path.join(ROOT, "replays")
-LOGS = os.path.join(ROOT, "logs")
+# (the three directories can be redirected, so that runs against a scratch tree do not overwrite the evidence of the real one)
+EVIDENCE = os.environ.get("VERIF_EVIDENCE_DIR") or os.path.join(ROOT, "evidence")
+REPLAYS = os.environ.get("VERIF_REPLAY_DIR") or os.path.join(ROOT, "replays")
+LOGS = os.environ.get("VERIF_LOG_DIR") or os.path.join(ROOT, "logs")
 KNOWN = os.path.join(ROOT, "known_findings.txt")
 
 SAN_ENV = {
